@@ -27,7 +27,32 @@ func (ex *Exec) doCall(st *State, fc *FnCtx, in ssa.Instruction, c *ssa.CallComm
 	} else {
 		fnv = ex.val(st, c.Value)
 	}
-	ex.callValue(st, fc, c, fnv, args, in, k)
+	// errors returned by callees are remembered per path (clause `errsfromcallees`)
+	sig := c.Signature()
+	k2 := func(st *State, res Val) {
+		if fc.top && fc.ct != nil && fc.ct.ErrsFromCallees {
+			rs := sig.Results()
+			record := func(v Val, t types.Type) {
+				if tm, ok := v.(Term); ok && tm.So == sIface && isErrorType(t) {
+					st.calleeErrs = append(st.calleeErrs, tm)
+				}
+			}
+			if rs.Len() == 1 {
+				record(res, rs.At(0).Type())
+			} else if tup, ok := res.(Tuple); ok {
+				for i := 0; i < rs.Len() && i < len(tup); i++ {
+					record(tup[i], rs.At(i).Type())
+				}
+			}
+		}
+		k(st, res)
+	}
+	ex.callValue(st, fc, c, fnv, args, in, k2)
+}
+
+func isErrorType(t types.Type) bool {
+	n, ok := t.(*types.Named)
+	return ok && n.Obj().Pkg() == nil && n.Obj().Name() == "error"
 }
 
 func (ex *Exec) callName(fc *FnCtx, callee string, in ssa.Instruction) string {
